@@ -1604,3 +1604,7 @@ mod test {
         assert_eq!(val, deserialized);
     }
 }
+
+#[cfg(feature = "verif")]
+#[path = "verif/store_hooks.rs"]
+pub(crate) mod verif_hooks;
